@@ -316,7 +316,13 @@ func Gen(r *core.Rand, o Opts) *History {
 			if assigned && r.Chance(1, 6) {
 				assigned = false // an update that lacks the vehicle
 			}
-			ts := TripState{ID: p.id, Date: p.date, Route: p.route, South: p.south, Assigned: assigned, Train: p.train, Updates: ups}
+			train := p.train
+			if assigned && fi > p.assignedFrom && len(p.id) > 0 && (fi+len(ups)+int(p.id[len(p.id)-1]))%9 == 4 {
+				// an assigned update whose train id is empty: the vehicle is present but has no id (round 13, C15-l). Decided
+				// from the content, not from the PRNG, so that every other draw of the history stays what it was.
+				train = ""
+			}
+			ts := TripState{ID: p.id, Date: p.date, Route: p.route, South: p.south, Assigned: assigned, Train: train, Updates: ups}
 			if p.reportsPosition {
 				if p.vehTS == 0 || r.Bool() {
 					p.vehTS = t - uint64(r.Intn(30)) // a new report; otherwise the train is held and repeats its last report time
